@@ -75,6 +75,30 @@ def run(ctx, R, tier):
     R.check(not bad_raise, "C10-R1", "get_next_stream_item|refuses-only-unknown-ids", "outside the failure path of next(stream) the method raises only for an unknown stream id", g.loc(bad_raise[0]) if bad_raise else g.loc(),
             "`%s` refuses a request for a stream the daemon still knows: a client that comes back within the linger period (or is served before the old connection's "
             "disconnect was processed) gets an error instead of its next item" % (unparse(bad_raise[0], 60) if bad_raise else ""))
+    # a stream whose connection ended is adopted by the connection that asks for its next item (owner None -> this client, linger clock back to 0) - and only such a
+    # stream: without the adoption the housekeeper removes a stream that IS being read once the linger period is over; adopting unconditionally takes a live
+    # stream away from the connection whose end is supposed to start its linger period
+    adopt = [st for st, t, k in stores_in(g.node) if k == "assign" and isinstance(t, ast.Subscript) and tbl_expr(t.value) and unparse(t.slice) == sid]
+    owner_vars = set()
+    for st, t, k in stores_in(g.node):
+        if k == "assign" and isinstance(st, ast.Assign) and isinstance(st.targets[0], ast.Tuple) and isinstance(st.value, ast.Subscript) and tbl_expr(st.value.value) \
+                and st.targets[0].elts and isinstance(st.targets[0].elts[0], ast.Name):
+            owner_vars.add(st.targets[0].elts[0].id)
+
+    def orphaned(atom, pol):
+        if isinstance(atom, ast.Compare) and len(atom.ops) == 1 and isinstance(atom.left, ast.Name) and atom.left.id in owner_vars and \
+                isinstance(atom.comparators[0], ast.Constant) and atom.comparators[0].value is None:
+            return (isinstance(atom.ops[0], ast.Is) and pol is True) or (isinstance(atom.ops[0], ast.IsNot) and pol is False)
+        return False
+    oka = len(adopt) == 1 and isinstance(adopt[0].value, ast.Tuple) and len(adopt[0].value.elts) == 4 and "current_context.client" in unparse(adopt[0].value.elts[0]) and \
+        isinstance(adopt[0].value.elts[2], ast.Constant) and adopt[0].value.elts[2].value == 0 and \
+        all(gcfg.guarded(n, lambda e: edge_has_fact(e, orphaned)) for n in gcfg.nodes_for(adopt[0])) and \
+        all(gcfg.all_paths_pass([gcfg.entry], lambda n: n in gcfg.nodes_for(adopt[0]), edge_ok=lambda e: e.kind != "exc" and not edge_has_fact(e, lambda a, p_: orphaned(a, not p_)), targets=[x])
+            for x in nn)
+    R.check(oka, "C10-R4", "get_next_stream_item|orphaned-stream-adopted-by-the-asking-connection", "exactly a stream without an owner is re-associated with the asking connection (linger clock reset) before its next item is taken",
+            g.loc(adopt[0]) if adopt else g.loc(),
+            "the re-association `%s` is no longer tied to `owner is None`: a client that reconnected within the linger period loses its stream when that period ends although it "
+            "is reading it (or: every fetch moves a live stream to the asking connection)" % (unparse(adopt[0], 80) if adopt else "vanished"))
     trys = [t for t, part in enclosing_trys(nexts[0], g.node) if part == "body"]
     ok = bool(trys)
     why = "next(stream) is not inside a try"
